@@ -229,7 +229,96 @@ def standin_expectation_and_phasor(tier, seed):
                 bound="seeded 3-qubit strings x random states x permuted qubit maps; phasors with and without explicitly listed identity qubits",
                 cases=cases, distinct=cases, failures=len(fails), exhaustive=False, _fails=fails[:6])
 standin_expectation_and_phasor.prop = "C14"
-STANDINS = [standin_algebra, standin_conjugation, standin_expectation_and_phasor]
+def _sum_matrix(terms, qs):
+    """independent matrix of a list of (coefficient, {qubit: 'X'|'Y'|'Z'}) terms on the ordered qubits qs"""
+    P = {"X": np.array([[0, 1], [1, 0]], dtype=complex), "Y": np.array([[0, -1j], [1j, 0]]), "Z": np.diag([1, -1]).astype(complex)}
+    tot = np.zeros((2 ** len(qs),) * 2, dtype=complex)
+    for c, d in terms:
+        m = np.eye(1, dtype=complex)
+        for q in qs:
+            m = np.kron(m, P[d[q]] if q in d else np.eye(2))
+        tot += c * m
+    return tot
+
+
+def standin_pauli_sums(tier, seed):
+    """PauliSum / PauliSumExponential: construction, arithmetic, relabelling by EVERY permutation and injection of qubits, matrices"""
+    import scipy.linalg as sl
+
+    import cirq
+
+    rng = random.Random(seed + 31)
+    cases, fails = 0, []
+    G = {"X": cirq.X, "Y": cirq.Y, "Z": cirq.Z}
+
+    def bad(what, **kw):
+        fails.append(dict(args={k: repr(v)[:400] for k, v in kw.items()}, failed=what, clause=what))
+
+    pool = cirq.LineQubit.range(4)
+    for _ in range(40 if tier == "quick" else 600):
+        n = rng.choice([1, 2, 3])
+        qs = rng.sample(pool, n)
+        terms = []
+        for _ in range(rng.randrange(1, 4)):
+            sub = rng.sample(qs, rng.randrange(1, n + 1))
+            terms.append((rng.choice([1, -1, 0.5, 2, 1j, -0.5j, 0.25 + 0.5j]), {q: rng.choice("XYZ") for q in sub}))
+        ps = sum(cirq.PauliString({q: G[p] for q, p in d.items()}, coefficient=c) for c, d in terms)
+        if not isinstance(ps, cirq.PauliSum):
+            ps = cirq.PauliSum.from_pauli_strings([ps])
+        own = list(ps.qubits)
+        cases += 1
+        if not np.allclose(ps.matrix(own), _sum_matrix(terms, own), atol=1e-9):
+            bad("PauliSum.matrix differs from the sum of Kronecker products", terms=terms)
+            continue
+        # relabelling: with_qubits is positional over the sum's sorted qubits
+        targets = [list(p) for p in itertools.permutations(own)] + [rng.sample(pool, len(own)) for _ in range(2)]
+        for new in targets:
+            cases += 1
+            try:
+                r = ps.with_qubits(*new)
+            except Exception as ex:
+                bad(f"PauliSum.with_qubits raised {type(ex).__name__}", terms=terms, new_qubits=new)
+                continue
+            m = dict(zip(own, new))
+            want_terms = [(c, {m[q]: p for q, p in d.items()}) for c, d in terms]
+            order = sorted(set(new))
+            if not np.allclose(r.matrix(order), _sum_matrix(want_terms, order), atol=1e-9):
+                bad("PauliSum.with_qubits does not move every term to the positionally corresponding qubit", terms=terms, old_qubits=own, new_qubits=new)
+            herm = all(abs(complex(c).imag) < 1e-12 for c, _ in terms)
+            if herm:
+                try:
+                    ex1 = cirq.PauliSumExponential(ps, exponent=0.3)
+                    ex2 = ex1.with_qubits(*new)
+                    if all(cirq.commutes(a, b) for a in ps for b in ps):
+                        want = sl.expm(1j * 0.3 * _sum_matrix(want_terms, order))
+                        got = cirq.Circuit(ex2).unitary(qubit_order=order, qubits_that_should_be_present=order) if hasattr(ex2, "__iter__") else ex2.matrix()
+                        if got.shape == want.shape and not np.allclose(got, want, atol=1e-7) and not cirq.allclose_up_to_global_phase(got, want, atol=1e-7):
+                            bad("PauliSumExponential.with_qubits: matrix differs from exp(i t H) of the relabelled sum", terms=terms, new_qubits=new)
+                except (TypeError, ValueError, NotImplementedError):
+                    pass
+        # arithmetic against matrices
+        other_terms = [(rng.choice([1, -2, 0.5j]), {q: rng.choice("XYZ") for q in rng.sample(own, rng.randrange(1, len(own) + 1))})]
+        other = cirq.PauliSum.from_pauli_strings([cirq.PauliString({q: G[p] for q, p in d.items()}, coefficient=c) for c, d in other_terms])
+        A, B = _sum_matrix(terms, own), _sum_matrix(other_terms, own)
+        for label, got, want in (("+", ps + other, A + B), ("-", ps - other, A - B), ("*", ps * other, A @ B), ("scalar *", 2.5j * ps, 2.5j * A), ("**2", ps ** 2, A @ A), ("neg", -ps, -A)):
+            cases += 1
+            qq = sorted(set(own) | set(got.qubits))
+            wantm = want if qq == own else want
+            if not np.allclose(got.matrix(own) if set(got.qubits) <= set(own) else got.matrix(qq), wantm, atol=1e-8):
+                bad(f"PauliSum {label} differs from the matrix operation", terms=terms, other=other_terms)
+        if len({f["failed"] for f in fails}) >= 3:
+            break
+    seen, uniq = set(), []
+    for f in fails:
+        if f["failed"] not in seen:
+            seen.add(f["failed"])
+            uniq.append(f)
+    return dict(function="cirq-core/cirq/ops/linear_combinations.py:PauliSum / pauli_sum_exponential.py", case="pauli-sums",
+                bound="seeded sums of <= 3 terms on <= 3 of 4 qubits; every permutation of the sum's qubits and random injections for with_qubits; + - * ** neg against matrices",
+                cases=cases, distinct=cases, failures=len(fails), exhaustive=False, _fails=uniq[:3])
+standin_pauli_sums.prop = "C14"
+
+STANDINS = [standin_algebra, standin_conjugation, standin_expectation_and_phasor, standin_pauli_sums]
 
 NOT_COVERED = [
     "PauliString.__mul__/_imul_helper as a whole (loop over the factors), DensePauliString.__mul__/__pow__, _calc_conjugation, PauliSum algebra: bounded only",
